@@ -11,7 +11,7 @@ import (
 // C15 — Schema.Check finds every dangling or unreciprocated relationship.
 
 func c15Slot(x *mc.Exec, owner, other, name string, targets []string) (j.Rel, bool, string) {
-	n := 1 + len(targets)*3*2
+	n := 1 + len(targets)*3*3
 	c := x.Choose(n, "slot "+owner+"."+name)
 	if c == 0 {
 		return j.Rel{}, false, ""
@@ -22,8 +22,11 @@ func c15Slot(x *mc.Exec, owner, other, name string, targets []string) (j.Rel, bo
 	inv := []string{"", "x", "y"}[c%3]
 	c /= 3
 	from := owner
-	if c == 1 {
+	switch c {
+	case 1:
 		from = other
+	case 2:
+		from = "" // a hand-declared relationship may leave it empty: not "its own type"
 	}
 	r := j.Rel{FromType: from, FromName: name, ToOne: true, ToType: target, ToName: inv}
 	return r, true, fmt.Sprintf("%s.%s->%s inv=%q from=%s; ", owner, name, target, inv, from)
@@ -154,7 +157,7 @@ func c15Body(x *mc.Exec) {
 func init() {
 	Register(&Prop{
 		ID: "C15",
-		Rule: "Engine A: ALL schemas over types {a,b} (type c always missing; thorough adds a third type d): per type two relationship slots x,y, each absent or target{a,b,c} x inverse{\"\",x,y} x FromType{owner,other} (19 options per slot, 19^4 + smaller type sets), both type orders, relationships stored under their names or under unrelated map keys; the iteration order of every map loop instance inside Check is a deviation-bounded choice (bound 1). Oracle: independent offender count; Check()==[] iff no offender, len(Check()) >= offenders, no panic, deep snapshot of the schema unchanged. Non-trivial = schema with some but not all relationships offending",
+		Rule: "Engine A: ALL schemas over types {a,b} (type c always missing; thorough adds a third type d): per type two relationship slots x,y, each absent or target{a,b,c} x inverse{\"\",x,y} x FromType{owner,other,empty} (28 options per slot, 28^4 + smaller type sets), both type orders, relationships stored under their names or under unrelated map keys; the iteration order of every map loop instance inside Check is a deviation-bounded choice (bound 1). Oracle: independent offender count; Check()==[] iff no offender, len(Check()) >= offenders, no panic, deep snapshot of the schema unchanged. Non-trivial = schema with some but not all relationships offending",
 		Assumptions: []string{"'names it back' is the pair-of-names test of the statement; whether the inverse also points at the owning type is not demanded (weaker reading)"},
 		Harnesses: []Harness{{Name: "C15/all-schemas", Body: c15Body, ShardDepth: 3, Dev: func() int { return 1 }}},
 	})
